@@ -21,6 +21,10 @@ from props import _engineb
 ID = "C13"
 LEVEL = "other"
 REPLAY = "replay/c13_mps.py"          # native falsifier of the Engine-A (MPS reader) obligations
+# bounded complement to the proof (pyvc/runner.py _start_native_side_check): the native falsifier also runs when all
+# obligations discharge -- floats are reals in the proofs (A1) and only the functions under contract are covered
+NATIVE_SIDE_CHECK = {"quick": True, "thorough": True}
+
 
 BOUNDS = ("state-vector kernels: N = 1..3 atoms (thorough: 4), every zero/non-zero phase pattern for N <= 2 "
           "(thorough: N <= 3), 4 patterns above, 2-3 interaction patterns; density-matrix kernels: N = 1..2 "
